@@ -501,3 +501,41 @@ pub fn h_mapo_merge(inp: &Inp) -> u8 {
         1
     }
 }
+
+//@ harness props=C05,C08,C20 covers=3 name=Map<Orswot> L_apply(rm, equal context): a second key remove with the SAME context as an applied (possibly pending) remove but other keys acts like one remove of the union of the keys
+#[no_mangle]
+pub fn h_mapo_apply_rm_same_ctx(inp: &Inp) -> u8 {
+    let mut i = In::new(inp);
+    let u = any_uni(&mut i);
+    let k = any_know(&mut i, &u);
+    let flip = i.bool();
+    let mask2 = i.below(1 << NK);
+    i.assume(k.rms[0]);
+    if !i.ok {
+        return 2;
+    }
+    let mut s = spec(&u, &k, flip);
+    let mut keyset = BTreeSet::new();
+    let mut key = 0u8;
+    while key < NK {
+        if (mask2 >> key) & 1 == 1 {
+            keyset.insert(key);
+        }
+        key += 1;
+    }
+    let op = Op::Rm { clock: vc_from(|a| u.rm_ctx[0][a as usize]), keyset };
+    if s.validate_op(&op).is_err() {
+        return 0;
+    }
+    s.apply(op);
+    let mut u2 = u.clone();
+    u2.rm_keys[0] |= mask2;
+    if s != spec(&u2, &k, flip) {
+        return 0;
+    }
+    if pending(&u, &k, 0) && (mask2 & !u.rm_keys[0]) != 0 {
+        3
+    } else {
+        1
+    }
+}
